@@ -15,7 +15,8 @@ CHECKS = {
           "the others untouched; (window) the Vorbis window slope is power complementary, w(a)^2 + w(pi/2-a)^2 = 1 (reals). NOT decided by proof: finiteness, peak factor and "
           "the error-vs-quality bound concern the floating-point psychoacoustic encoder; they are measured per run on the implementation over a parametrised signal family "
           "(per-channel distinct multi-tones, sweeps, low-passed noise, click trains, tone bursts; 1-8 channels, 8-96 kHz, 7 qualities + managed): cross-correlation peak at "
-          "lag 0, each output channel correlates most with its own input, finite, peak <= 4x, SNR above a quality-dependent floor that rises with quality.",
+          "lag 0, each output channel correlates most with its own input, finite, peak <= 4x, SNR above a quality-dependent floor that rises with quality; "
+          "one channel at a time (100 Hz tone, the others digitally silent): every channel, the 5.1 LFE included, must come back on itself.",
   "note": "Trusted: Coq kernel; standard-library real-number axioms (ClassicalDedekindReals.sig_forall_dec, sig_not_dec, functional_extensionality_dep) under the window theorem "
           "only; harness/c06.c. The LFE channel of 5.1 set-ups is low-passed by design and exempt from the wide-band alignment/quality measurements. The SNR floors are "
           "calibrated ~10 dB below the unchanged encoder: a change that degrades quality by less is not detected.",
